@@ -38,6 +38,7 @@ Definition model_shared_writes : list (str * wclass) :=
     (lit "infer.go|init|initialSchemaMap[reflect.TypeFor[big.Float](..)]"%lit, InitTime);
     (lit "infer.go|init|initialSchemaMap[reflect.TypeFor[big.Int](..)]"%lit, InitTime);
     (lit "infer.go|init|initialSchemaMap[reflect.TypeFor[big.Rat](..)]"%lit, InitTime);
+    (lit "infer.go|init|initialSchemaMap[reflect.TypeFor[json.Number](..)]"%lit, InitTime);
     (lit "infer.go|init|initialSchemaMap[reflect.TypeFor[slog.Level](..)]"%lit, InitTime);
     (lit "infer.go|init|initialSchemaMap[reflect.TypeFor[time.Time](..)]"%lit, InitTime);
     (lit "resolve.go|Schema.checkStructure|infos[s]"%lit, ResolveTime);
